@@ -235,7 +235,7 @@ pub fn gen_prog(r: &mut Rng, depth: u32) -> (String, Vars) {
     for i in 0..nrep {
         let is_b = r.chance(1, 6);
         let vol = r.chance(1, 2);
-        let base = format!("{}{}", r.pick(&["r", "acked", "rtt", "loss", "x", "volatility", "Report"]), i);
+        let base = format!("{}{}", r.pick(&["r", "acked", "rtt", "loss", "x", "volatility", "Report", "Flow.rtt", "rtt.min", "a.b.c", "Control.x", "R", "ACKED", "volatile_x", "whenx", "defx", "trueish"]), i);
         let full = format!("Report.{}", base);
         let d = format!("({}{} {})", if vol { "volatile " } else { "" }, if use_struct && r.chance(3, 4) { base.clone() } else { full.clone() }, init_val(r, is_b));
         if d.contains("Report.") { legacy.push(d); } else { struct_decls.push(d); }
@@ -244,9 +244,14 @@ pub fn gen_prog(r: &mut Rng, depth: u32) -> (String, Vars) {
     for i in 0..nctl {
         let is_b = r.chance(1, 6);
         let vol = r.chance(1, 3);
-        let n = format!("{}{}", if r.chance(1, 40) { "truex" } else { *r.pick(&["c", "state", "thresh", "k", "volatilec", "Control.", "Reported", "Report_"]) }, i);
+        let n = format!("{}{}", if r.chance(1, 40) { "truex" } else { *r.pick(&["c", "state", "thresh", "k", "volatilec", "Control.", "Reported", "Report_", "C", "STATE", "Thresh", "x.Report.y", "Ack.mine", "volatile_c", "ifx", "reportx"]) }, i);
         ctl_decls.push(format!("({}{} {})", if vol { "volatile " } else { "" }, n, init_val(r, is_b)));
         v.controls.push((n, is_b, vol));
+    }
+    // two names that differ only in case, declared together (a lookup must not confuse them)
+    if r.chance(1, 8) && nctl + 2 <= 16 {
+        let (a, b) = *r.pick(&[("Limit", "limit"), ("RTT", "Rtt"), ("k", "K"), ("cap", "Cap")]);
+        for n in [a, b] { ctl_decls.push(format!("({} {})", n, lit_num(r))); v.controls.push((n.to_string(), false, false)); }
     }
     // now and then a declaration whose initial value is not a literal (a name): it gets a register
     // but no initialisation instruction; it is not used by the statements generated below
@@ -272,7 +277,14 @@ pub fn gen_prog(r: &mut Rng, depth: u32) -> (String, Vars) {
         let cond = if r.chance(1, 4) { (*r.pick(&["true", "false"])).to_string() } else {
             let c = gen_bool(r, &v, depth.min(2));
             if c.starts_with('(') { c } else { "true".to_string() } };
+        let cond = if r.chance(1, 30) && cond.starts_with('(') { format!("({} {} {})", bind_kw(r), cond, r.pick(&["true", "false"])) } else { cond };
         src.push_str(&format!("\n(when {}", cond));
+        if r.chance(1, 20) {
+            // an event whose body is only comments: when its condition holds it still ends the invocation
+            src.push_str("\n  # nothing to do here\n"); if r.chance(1, 2) { src.push_str("  #\n"); }
+            src.push(')');
+            continue;
+        }
         let ns = r.range(1, 5);
         let mut last = String::new();
         for _ in 0..ns {
@@ -444,7 +456,11 @@ pub fn run_c10(tier: &str, seed: u64, out: &mut dyn Write) {
 
 pub fn tokenize(src: &str) -> Vec<String> {
     let mut v = vec![]; let mut cur = String::new();
+    let mut comment = false;
     for c in src.chars() {
+        // a comment is one token, from '#' to the end of its line (the newline belongs to it)
+        if comment { cur.push(c); if c == '\n' { v.push(cur.clone()); cur.clear(); comment = false; } continue; }
+        if c == '#' && cur.is_empty() { comment = true; cur.push(c); continue; }
         if c == '(' || c == ')' { if !cur.is_empty() { v.push(cur.clone()); cur.clear(); } v.push(c.to_string()); }
         else if c.is_whitespace() { if !cur.is_empty() { v.push(cur.clone()); cur.clear(); } }
         else { cur.push(c); }
@@ -485,6 +501,11 @@ pub fn run_c14(tier: &str, seed: u64, out: &mut dyn Write) {
         let names = vec!["x".to_string(), "Report.y".to_string()];
         for target in ["x", "Report.y"] {
             emit_param(out, &format!("lit={}", v), b"(def (x 5) (Report (y 1))) (when true (report))", &[(target.to_string(), v)], &names);
+        }
+        // ... and reaches the variable of exactly that name (not one that differs in case, not a prefix)
+        let names3 = vec!["Limit".to_string(), "limit".to_string(), "lim".to_string(), "Report.Y".to_string(), "Report.y".to_string()];
+        for target in ["limit", "Limit", "lim", "Report.y", "Report.Y"] {
+            emit_param(out, &format!("lit={}", v), b"(def (Limit 10) (limit 20) (lim 30) (Report (Y 1) (y 2))) (when true (:= limit (+ Limit lim)) (report))", &[(target.to_string(), v)], &names3);
         }
         // ... whatever the declared initial value was (a boolean, a name)
         let names2 = vec!["flag".to_string(), "Report.on".to_string(), "cap".to_string()];
@@ -566,7 +587,7 @@ pub fn layout_variant(r: &mut Rng, toks: &[String]) -> String {
         // separator: required between two word-like tokens; optional around parentheses.
         // (no whitespace is permitted between "(" and "def" before the fix; both are handled by the parser now)
         let next = toks.get(i + 1).map(|x| x.as_str()).unwrap_or("");
-        let wordlike = |x: &str| x != "(" && x != ")" && !x.is_empty();
+        let wordlike = |x: &str| x != "(" && x != ")" && !x.is_empty() && !x.starts_with('#');
         let need = wordlike(t) && wordlike(next);
         // symbolic operators may abut a following "(" or word only when that cannot fuse: keep one space after any word-like token unless next is ")" or "("
         let need = need || (wordlike(t) && next == "(" && false);
@@ -598,6 +619,18 @@ pub fn run_limits(tier: &str, seed: u64, out: &mut dyn Write) {
             emit(out, src.as_bytes(), &ups);
         }
     } } }
+    // the 8-bit slot counters: 254..257 variables of one kind, in one spelling or split across the
+    // Report block and the Report.-prefixed spelling
+    for (nstruct, nlegacy, nctl) in [(255usize, 0usize, 0usize), (256, 0, 0), (257, 0, 0), (0, 255, 0), (0, 256, 0), (200, 100, 0), (1, 255, 0), (255, 1, 0), (128, 128, 0), (100, 155, 3),
+                                     (0, 0, 255), (0, 0, 256), (0, 0, 257), (3, 2, 254), (200, 56, 250)] {
+        let mut decls: Vec<String> = vec![];
+        for i in 0..nctl / 2 { decls.push(format!("(c{} {})", i, i)); }
+        for i in 0..nlegacy / 2 { decls.push(format!("(Report.q{} {})", i, i)); }
+        if nstruct > 0 { decls.push(format!("(Report {})", (0..nstruct).map(|i| format!("(s{} {})", i, i)).collect::<Vec<_>>().join(" "))); }
+        for i in nlegacy / 2..nlegacy { decls.push(format!("(Report.q{} {})", i, i)); }
+        for i in nctl / 2..nctl { decls.push(format!("(c{} {})", i, i)); }
+        emit(out, format!("(def {}) (when true (report))", decls.join(" ")).as_bytes(), &[]);
+    }
     // operator-node counts around the temporary-register limit, in every shape
     for n in 1..=11usize {
         for shape in 0..3 {
